@@ -230,6 +230,14 @@ func (e fieldIDOutOfBoundsError) Error() string {
 			"field IDs must be in the range [1, 32767]", e.ID, e.Name)
 }
 
+type constantCycleError struct {
+	Name string
+}
+
+func (e constantCycleError) Error() string {
+	return fmt.Sprintf("constant %q is defined in terms of itself", e.Name)
+}
+
 type oneWayCannotReturnError struct {
 	Name string
 }
